@@ -349,6 +349,19 @@ pub mod generics {
         A { inner: SandBox<Box<u16>>, plain: Vec2Box<u8> },
         B(MyBox<Box<u64>>, Box<u8>),
     }
+    /// two parameters instantiated with one and the same type, one of them unused (not coincidence-free)
+    #[derive(TypeInfo)]
+    pub enum EitherPh<L, R> {
+        Left(L),
+        Right(PhantomData<R>),
+    }
+    #[derive(TypeInfo)]
+    pub struct UsesSameArgs {
+        pub a: NamedPh<u32, u32>,
+        pub b: NamedPh<u8, u16>,
+        pub e: EitherPh<u64, u64>,
+        pub f: EitherPh<bool, u8>,
+    }
     /// unit of measure
     #[derive(TypeInfo)]
     pub struct Kilo;
@@ -440,6 +453,19 @@ pub mod reach {
     }
     #[derive(TypeInfo)]
     pub struct Lonely(pub bool);
+    /// a type that is first met as an unused generic argument and only later as a plain field
+    #[derive(TypeInfo)]
+    pub struct Marker {
+        pub inner: MarkerInner,
+    }
+    #[derive(TypeInfo)]
+    pub struct MarkerInner(pub u32);
+    #[derive(TypeInfo)]
+    pub struct TwoRoles {
+        pub tagged: super::generics::Ph<Marker>,
+        pub plain: Marker,
+        pub also: Option<super::generics::NamedPh<Marker, Lonely>>,
+    }
     /// only ever mentioned as a generic argument
     #[derive(TypeInfo)]
     pub struct OnlyArg(pub u8);
@@ -510,6 +536,19 @@ pub mod calls {
             v: u16,
         },
         Batch(Vec<Call>, Box<Call>),
+        /// a compact and a plain field of one and the same source type, in both orders
+        TransferWithTip {
+            dest: u64,
+            #[codec(compact)]
+            value: u128,
+            tip: u128,
+        },
+        Reserve {
+            fee: u32,
+            #[codec(compact)]
+            amount: u32,
+            who: u64,
+        },
         Nothing,
         WithOption(Option<super::basic::E>, [u8; 4], (u8, u16)),
     }
@@ -677,6 +716,50 @@ pub mod assoc {
     }
 }
 
+/// two definitions with one and the same name in different modules, one with an unused parameter
+pub mod samename {
+    use super::*;
+    pub mod a {
+        use super::*;
+        #[derive(TypeInfo)]
+        pub struct Wrapper<T> {
+            pub v: T,
+        }
+        #[derive(TypeInfo)]
+        pub enum Kind<T> {
+            One(T),
+            Two,
+        }
+    }
+    pub mod b {
+        use super::*;
+        #[derive(TypeInfo)]
+        pub struct Wrapper<T> {
+            pub v: u8,
+            pub _p: PhantomData<T>,
+        }
+        #[derive(TypeInfo)]
+        pub enum Kind<T> {
+            One(u8),
+            Two(PhantomData<T>),
+        }
+    }
+    #[derive(TypeInfo)]
+    pub struct UsesWrappers {
+        pub first: a::Wrapper<u16>,
+        pub second: b::Wrapper<u16>,
+        pub k1: a::Kind<u32>,
+        pub k2: b::Kind<u32>,
+    }
+    #[derive(TypeInfo)]
+    pub struct UsesWrappersRev {
+        pub first: b::Wrapper<u16>,
+        pub second: a::Wrapper<u16>,
+        pub k1: b::Kind<u32>,
+        pub k2: a::Kind<u32>,
+    }
+}
+
 pub mod prelude_extra {
     use super::*;
     #[derive(TypeInfo)]
@@ -761,6 +844,12 @@ pub mod versions {
         pub a: h1::Header<u32, u64>,
         pub b: h2::Header<u32, u64>,
     }
+    /// the same two definitions, instantiated with mirrored arguments: both have the wire shape (u32, u64)
+    #[derive(TypeInfo)]
+    pub struct BothHdrMirror {
+        pub a: h1::Header<u32, u64>,
+        pub b: h2::Header<u64, u32>,
+    }
     #[derive(TypeInfo)]
     pub struct Both {
         pub a: v1::Holder,
@@ -806,6 +895,11 @@ pub fn all() -> Vec<(&'static str, PortableRegistry)> {
         ("lookalikes_enum", reg_of::<generics::CallLookalikes>()),
         ("swapper", reg_of::<generics::UsesSwapper>()),
         ("versions_hdr", reg_of::<versions::BothHdr>()),
+        ("versions_hdr_mirror", reg_of::<versions::BothHdrMirror>()),
+        ("same_args", reg_of::<generics::UsesSameArgs>()),
+        ("two_roles", reg_of::<reach::TwoRoles>()),
+        ("samename", reg_of::<samename::UsesWrappers>()),
+        ("samename_rev", reg_of::<samename::UsesWrappersRev>()),
         ("matrix", reg_of::<generics::UsesMatrix>()),
         ("cow_generic", reg_of::<generics::UsesCowG>()),
         ("mybox", reg_of::<generics::UsesUsesMyBox>()),
